@@ -1,6 +1,7 @@
 import GolibsVerif.Lemmas.RedisConc
 import GolibsVerif.Props.Lin
-/-! Simulation relation between `RedisConc` and `Lin.Sys` over the KV contract with its clock, and its
+/-! Simulation relation between `RedisConc` and `Lin.Sys` over the sequential Redis client model
+(`Kv.Redis.step`) with its clock, and its
 preservation (helpers for Props/C02Redis.lean; `Corr` is part of the statement of `C02Redis.simulates`). -/
 namespace C02Redis
 open Kv RedisConc Lin
@@ -63,9 +64,9 @@ theorem Corr_loopNext (rest : List (String × String × Option Nat)) : Corr (loo
   | nil => exact .inr (.inl rfl)
   | cons a rest => exact .inr (.inr ⟨_, rfl⟩)
 
-/-- the simulation relation: contract state and time = server state and time, every client's
+/-- the simulation relation: state and time of the sequential Redis client model = server state and time, every client's
 operation is in the corresponding phase, and the clock thread is idle -/
-def Sim (s : St) (L : Sys (Spec × Nat) LOp Out) : Prop :=
+def Sim (s : St) (L : Sys (Redis × Nat) LOp Out) : Prop :=
   L.st = (s.srv, s.now) ∧ (∀ (t : Nat) (p : Pc), s.pc[t]? = some p → Corr p (L.th t)) ∧
     L.th s.pc.length = .idle
 
@@ -109,7 +110,7 @@ theorem setTh_ne {th : Nat → TSt LOp Out} {t c : Nat} (ts : TSt LOp Out) (h : 
   have : c ≠ t := by omega
   simp [setTh, this]
 
-theorem sim_step {s s' : St} {L : Sys (Spec × Nat) LOp Out} {e : RedisConc.Ev} {l : List (Lin.Ev LOp Out)}
+theorem sim_step {s s' : St} {L : Sys (Redis × Nat) LOp Out} {e : RedisConc.Ev} {l : List (Lin.Ev LOp Out)}
     (hi : WInv s) (hs : Sim s L) (h : step s e = some (s', l)) :
     ∃ L', L.run obj l = some L' ∧ Sim s' L' := by
   obtain ⟨hst, hc, hck⟩ := hs
@@ -154,10 +155,10 @@ theorem sim_step {s s' : St} {L : Sys (Spec × Nat) LOp Out} {e : RedisConc.Ev} 
       exact corr_update_same hc t p' (by rw [hth]; exact Corr_pending ho' _)
     · have hth := Corr_putLoop (hc t _ hp)
       have hres : Out.okVer s.srv.nextVer = (obj.step L.st (.op (.put k v e))).2 := by
-        simp [obj, hst, Spec.step, Spec.write]
+        simp [obj, hst, Redis.step, Redis.setRec]
       rw [hres, run_complete obj L t _ hth]
       refine ⟨_, rfl, ?_, ?_, ?_⟩
-      · simp [obj, hst, Spec.step, hsrv, hnow]
+      · simp [obj, hst, Redis.step, hsrv, hnow, St.psrv]
       · rw [hpc]
         exact corr_update_same hc t _ (by rw [hth]; exact Corr_loopNext rest)
       · rw [hpc, List.length_set]; exact hck
@@ -193,7 +194,7 @@ theorem sim_step {s s' : St} {L : Sys (Spec × Nat) LOp Out} {e : RedisConc.Ev} 
     simp [obj, hst]
 
 theorem sim_runL {es : List RedisConc.Ev} :
-    ∀ {s s' : St} {L : Sys (Spec × Nat) LOp Out} {ls : List (Lin.Ev LOp Out)},
+    ∀ {s s' : St} {L : Sys (Redis × Nat) LOp Out} {ls : List (Lin.Ev LOp Out)},
     WInv s → Sim s L → runL s es = some (s', ls) → ∃ L', L.run obj ls = some L' ∧ Sim s' L' := by
   induction es with
   | nil =>
@@ -210,7 +211,7 @@ theorem sim_runL {es : List RedisConc.Ev} :
     rw [run_append, hL1]
     exact hL2
 
-theorem sim_init (n : Nat) : Sim (St.init n) (Sys.init (Spec.new, 0)) := by
+theorem sim_init (n : Nat) : Sim (St.init n) (Sys.init (Redis.new, 0)) := by
   refine ⟨rfl, ?_, rfl⟩
   intro t p hp
   simp only [St.init] at hp
